@@ -141,7 +141,9 @@ void Proto::onRecvJson(const Json &js)
 
     } else if (js.is_array()) {
         for (auto &js_item : js) {
-            onRecvJson(js_item);
+            //! batch 中的每一项必须是对象。不能对嵌套数组继续递归，否则深层嵌套的恶意数据会耗尽栈空间
+            if (js_item.is_object())
+                onRecvJson(js_item);
         }
     }
 }
